@@ -507,6 +507,29 @@ def _check_harness(ctx):
             raise MachineryError('harness produced a malformed C05 event: ' + f['scenario']['id'])
 
 
+def from_suite(ctx):
+    """Boundary-condition splits the repository's own tests ask for (sparsity structure, index sets, which operands are
+    given), re-driven with small integer entries on the recorded structure so that every clause is decided exactly."""
+    from .. import suite
+    evs = suite.record(ctx, files=['tests/test_utils.py', 'tests/test_manufactured.py', 'tests/test_assembly.py',
+                                   'tests/test_basis.py', 'tests/test_dofs.py'])['bc']
+    rng = np.random.default_rng(ctx.seed + 505)
+    recs = []
+    for e in evs:
+        n = e['n']
+
+        def fill(ptr, idx):
+            return {'n': n, 'm': n, 'ptr': ptr, 'idx': idx, 'dat': [int(v) for v in rng.choice([-3, -2, -1, 1, 2, 3, 4], size=len(idx))]}
+        rec = {'driver': 'bc', 'n': n, 'A': fill(e['ptr'], e['idx']), 'hasb': e['hasb'], 'hasx': e['hasx'],
+               'form': 'I-array' if e['given'] == 'I' else 'D-array', 'D': e['D'], 'I': e['I'],
+               'b': [int(v) for v in rng.integers(-5, 6, size=n)], 'x': [int(v) for v in rng.integers(-5, 6, size=n)],
+               'diag': 1, 'ie_pow': 10, 'family': 'suite', 'test': e.get('test', '')}
+        if e['hasb'] == 2:
+            rec['B'] = fill(e['Bptr'], e['Bidx'])
+        recs.append(rec)
+    return recs
+
+
 def run(ctx):
     r = ctx.model_must_hold('MC_C05', 'MC_C05.cfg', timeout=900, env={'C05_N4': '0'})
     if ctx.tier == 'thorough':
@@ -521,6 +544,10 @@ def run(ctx):
     recs = from_tlc(out) if os.path.exists(out) else []
     n_tlc = len(recs)
     recs += generate(ctx.tier, ctx.seed)
+    if ctx.tier == 'thorough':
+        sr = from_suite(ctx)
+        ctx.notes['scenarios_from_repository_tests'] = len(sr)
+        recs += sr
     scs = [scenario(f'C05-{k}', rec) for k, rec in enumerate(recs)]
     ctx.validate('TraceC05', scs)
     _check_harness(ctx)
